@@ -10,3 +10,5 @@ import (
 
 func verifTrace(dp *DPoVP, op string, block *types.Block, height uint32, hash common.Hash, sigs []types.SignData) {
 }
+
+func verifSignGate(blockHash common.Hash) {}
